@@ -450,6 +450,67 @@ fn raw_directory(ctx: &mut Ctx, r: &mut StdRng) {
     ctx.scratch.discard(&parent);
 }
 
+/// "Its stdout becomes the directive output": a command that also writes far more than a pipe
+/// buffer to stderr (before, after and interleaved with its stdout) contributes exactly its stdout.
+fn loud_stderr(ctx: &mut Ctx, r: &mut StdRng) {
+    let root = ctx.scratch.fresh();
+    let n_out = [0usize, 10, 70_000, 150_000][r.gen_range(0..4)];
+    let n_err = [70_000usize, 200_000][r.gen_range(0..2)];
+    let out_cmd = format!("head -c {n_out} /dev/zero | tr '\\0' 'o'");
+    let err_cmd = format!("head -c {n_err} /dev/zero | tr '\\0' 'e' >&2");
+    let cmd = match r.gen_range(0..3) {
+        0 => format!("({out_cmd}; {err_cmd}); echo"),
+        1 => format!("({err_cmd}; {out_cmd}); echo"),
+        _ => format!("({err_cmd} & {out_cmd}; wait); echo"),
+    };
+    let mut files = Files::new();
+    files.insert("l.txt.txtpp".into(), format!("begin\n-TXTPP#run {cmd}\nend\n").into_bytes());
+    materialize(&root, &files, &[]);
+    let via_cli = r.gen_bool(0.3);
+    let threads = [1usize, 2][r.gen_range(0..2)];
+    let cfg = RunCfg { base: root.clone(), inputs: vec!["l.txt".into()], mode: Mode::Build, threads, recursive: false, trailing: true, shell: String::new() };
+    let cj = json!({"kind": "loud-stderr", "command": cmd, "via_cli": via_cli, "threads": threads});
+    let ok = if via_cli {
+        let o = run_cli(&root, &cfg.cli_args(), &CliOpts { timeout: Some(std::time::Duration::from_secs(30)), ..Default::default() });
+        if o.timed_out {
+            ctx.violation("C17:run-failed:loud-stderr", format!("txtpp did not finish within 30 s running `{cmd}` (the command alone takes milliseconds)"), cj);
+            ctx.scratch.discard(&root);
+            return;
+        }
+        o.code == Some(0)
+    } else {
+        let o = run_inproc(&cfg, Spec::Natural { delay: None }, Some(&root), false);
+        let _ = std::env::set_current_dir("/");
+        match &o.verdict {
+            Verdict::Ok | Verdict::Err(_) => {}
+            Verdict::Watchdog => {
+                ctx.inconclusive("watchdog (loud stderr)");
+                ctx.scratch.discard(&root);
+                return;
+            }
+            other => {
+                ctx.violation("C17:abnormal-termination", format!("running `{cmd}`: {}", other.short()), cj);
+                ctx.scratch.discard(&root);
+                return;
+            }
+        }
+        o.verdict.is_ok()
+    };
+    ctx.evals += 1;
+    ctx.count("commands_with_loud_stderr", 1);
+    if !ok {
+        ctx.violation("C17:run-failed:loud-stderr", format!("a command exiting 0 that writes {n_err} bytes to stderr failed the build: `{cmd}`"), cj.clone());
+    } else {
+        let got = std::fs::read(root.join("l.txt")).unwrap_or_default();
+        let want = format!("begin\n{}\nend\n", "o".repeat(n_out)).into_bytes();
+        if got != want {
+            ctx.violation("C17:stdout-not-the-output", format!("output has {} bytes, expected {} (begin, {n_out} x 'o', end): stderr text must not leak into it and stdout must be complete", got.len(), want.len()), cj.clone());
+        }
+    }
+    ctx.distinct.insert(crate::util::hash_str(&cj.to_string()));
+    ctx.scratch.discard(&root);
+}
+
 fn guard_checks(ctx: &mut Ctx) {
     // the binary refuses to start when TXTPP_FILE is set
     let root = ctx.scratch.fresh();
@@ -528,6 +589,9 @@ fn run(ctx: &mut Ctx) {
         if i % 8 == 6 {
             raw_directory(ctx, &mut r);
         }
+        if i % 8 == 4 {
+            loud_stderr(ctx, &mut r);
+        }
         if i == 0 {
             ctx.sample(|| c.json());
         }
@@ -537,6 +601,13 @@ fn run(ctx: &mut Ctx) {
 fn replay(ctx: &mut Ctx, v: &Value) {
     if v["kind"].as_str() == Some("guard") {
         guard_checks(ctx);
+        return;
+    }
+    if v["kind"].as_str() == Some("loud-stderr") {
+        let mut r = StdRng::seed_from_u64(17);
+        for _ in 0..20 {
+            loud_stderr(ctx, &mut r);
+        }
         return;
     }
     if v["kind"].as_str() == Some("outside-base") || v["kind"].as_str() == Some("raw-directory") {
